@@ -442,9 +442,21 @@ func c06(r *ev.Run, replay string) {
 			return
 		}
 		nsw++
-		sizeCheck(r, m.(lenEnc), rootSig(n), ret, func(sig, what string) {
+		bad := func(sig, what string) {
 			r.Violation(sig, what+" in "+shortModel(n), shapeCase{Model: n.String(), Tree: n})
-		})
+		}
+		b := sizeCheck(r, m.(lenEnc), rootSig(n), ret, bad)
+		// byte-string members (error data, packet-in payload) sit intact at the end of the message
+		if b != nil {
+			switch n.K {
+			case "error", "error_exp", "packet_in":
+				if data := n.B["Data"]; len(data) > 0 {
+					if len(b) < len(data) || !bytes.Equal(b[len(b)-len(data):], data) {
+						bad("embed:"+n.K+".Data", fmt.Sprintf("the %d data bytes given to the message are not the last %d bytes of its %d-byte encoding", len(data), len(data), len(b)))
+					}
+				}
+			}
+		}
 	})
 	r.Completed("switch-originated kinds that have constructors (error, features/config reply, flow-removed, port-status, packet-in)")
 	np := c06Packets(r, ret)
